@@ -241,6 +241,53 @@ def mk_preconditioner(rank, ptype_name, blocks, comp):
   return t
 
 
+def mk_partition_order(rank, blocks):
+  """partition(x)[k] is the k-th box in itertools.product order (the order shapes_for_preconditioners announces and
+  the statistics / preconditioner lists are indexed by), and merge_partitions inverts partition."""
+
+  def t(ctx, it):
+    m = it.load_module(DS)
+    param, dims = sym_param(rank)
+    bs = spec.fresh_int("block_size", lo=1)
+    for d, nb in zip(dims, blocks):
+      if nb == 1:
+        ctx.assume(d <= bs)
+      else:
+        ctx.assume(sym.sand(d > (nb - 1) * bs, d <= nb * bs))
+    pre = m.Preconditioner(param, bs, 4096, False, m.PreconditionerType.ALL, 0)
+    parts = pre._partitioner.partition(param)
+    shapes = pre.shapes_for_preconditioners()
+    nblocks = 1
+    for nb in blocks:
+      nblocks *= nb
+    ctx.oblige("BlockPartitioner.partition.post.count=#blocks", len(parts) == nblocks)
+    for k, combo in enumerate(itertools.product(*[range(nb) for nb in blocks])):
+      blk = parts[k]
+      sizes = [dims[ax] if blocks[ax] == 1 else (bs if combo[ax] < blocks[ax] - 1 else dims[ax] - (blocks[ax] - 1) * bs)
+               for ax in range(rank)]
+      ctx.oblige("BlockPartitioner.partition.post.kth-block-has-the-kth-announced-shape (product order, last axis fastest)",
+                 sym.sand(*[blk.shape[ax] == sizes[ax] for ax in range(rank)],
+                          *[shapes[k * rank + ax][0] == blk.shape[ax] for ax in range(rank)]), detail=f"block {k} = {combo}")
+      idx = skolem_index(ctx, tuple(sizes), name=f"b{k}_")
+      src = tuple(i + combo[ax] * bs for ax, i in enumerate(idx))
+      ctx.oblige("BlockPartitioner.partition.post.kth-block-is-the-kth-box-of-the-tensor", blk.at(idx) == param.at(src),
+                 detail=f"block {k} = {combo}")
+    back = pre._partitioner.merge_partitions(parts)
+    ctx.oblige("BlockPartitioner.merge_partitions.post.shape", sym.sand(*[a == b for a, b in zip(back.shape, dims)]))
+    i = skolem_index(ctx, dims, name="m")
+    ctx.oblige("BlockPartitioner.merge_partitions(partition(x)) = x pointwise", back.at(i) == param.at(i))
+    # merge of arbitrary blocks of the announced shapes puts block k back at box k (what the update relies on)
+    fresh = [T.opaque(f"blk{k}", parts[k].shape) for k in range(nblocks)]
+    merged = pre._partitioner.merge_partitions(fresh)
+    for k, combo in enumerate(itertools.product(*[range(nb) for nb in blocks])):
+      idx = skolem_index(ctx, fresh[k].shape, name=f"f{k}_")
+      dst = tuple(i_ + combo[ax] * bs for ax, i_ in enumerate(idx))
+      ctx.oblige("BlockPartitioner.merge_partitions.post.kth-block-lands-in-the-kth-box", merged.at(dst) == fresh[k].at(idx),
+                 detail=f"block {k} = {combo}")
+
+  return t
+
+
 # ---------------------------------------------------------------- P4 tearfree reshaper
 def skolem_index(ctx, shape, name="i"):
   idx = []
@@ -432,6 +479,8 @@ def tasks(tier):
   ts.append(Task("tearfree.shampoo._split_exclusively", t_split_exclusively))
   for r in range(0, 6):
     ts.append(Task(f"BlockPartitioner.__init__[rank={r}]", mk_partitioner(r)))
+  for blocks in ((1,), (3,), (2, 1), (1, 2), (2, 3), (3, 2), (2, 1, 2), (2, 2, 2)):
+    ts.append(Task(f"BlockPartitioner.partition order[blocks={blocks}]", mk_partition_order(len(blocks), blocks)))
   for r in range(1, 4):
     for pt in ("ALL", "INPUT", "OUTPUT"):
       opts = [1, 2] if tier == "quick" or r == 3 else [1, 2, 3]
